@@ -20,6 +20,22 @@ for s, letter in (('A', la), ('B', lb)):
         if os.path.isfile(p) and f.endswith(('.txt', '.sh')):
             t = open(p).read().replace(f'SEED/{s}/', f'SEED/{letter}/').replace(f'SEED/{s} ', f'SEED/{letter} ')
             open(p, 'w').write(t)
+    # RUN.txt must be runnable with `bash -e`: prose lines become comments
+    runp = d + '/RUN.txt'
+    if os.path.exists(runp):
+        cmds = ('export ', 'cp ', 'go ', 'rm ', 'git ', 'mkdir ', 'python3 ', 'bash ', 'cd ', 'javac ', 'java ', 'sh ', './', 'test ', 'mv ', 'cat ', 'GOFLAGS', 'for ', 'done', 'if ', 'fi', 'then', 'else')
+        out = []
+        for line in open(runp).read().split('\n'):
+            st = line.strip()
+            if st.startswith(('git apply', 'git checkout', 'git stash')):
+                out.append('# (done by the caller) ' + st)
+            elif st == '' or st.startswith('#') or st.startswith(cmds) and not st.endswith(':'):
+                out.append(line.strip() if st.startswith(cmds) else line)
+            else:
+                out.append('# ' + line)
+        open(runp, 'w').write('\n'.join(out))
+    if os.path.isfile(f'{root}/{prop}/SEED/go.mod'):
+        shutil.copy(f'{root}/{prop}/SEED/go.mod', d + '/seed_root_go.mod')  # keeps `go test ./...` out of SEED/
     notes = open(d + '/NOTES.txt').read() if os.path.exists(d + '/NOTES.txt') else ''
     paras = [p.strip() for p in re.split(r'\n(?=[A-Z][A-Za-z ]+:)', notes) if p.strip()]
     change = next((p for p in paras if p.lower().startswith('change')), paras[0] if paras else '')
